@@ -63,6 +63,21 @@ impl Evaluator {
         }
     }
 
+    /// the four next-highest cards of the flush suit break ties between flushes
+    pub fn find_flush_kickers(&self) -> Kickers {
+        match self.find_suit_of_flush() {
+            None => Kickers::from(0),
+            Some(suit) => {
+                let bits = u16::from(self.0.of(&suit));
+                let mut rank = bits & !(u16::from(Rank::from(bits)));
+                while 4 < rank.count_ones() as usize {
+                    rank = rank & (rank - 1);
+                }
+                Kickers::from(rank)
+            }
+        }
+    }
+
     ///
 
     fn find_1_oak(&self) -> Option<Ranking> {
